@@ -22,3 +22,19 @@ Definition wellformed_widths (ws : line) : bool := forallb (fun w => (1 <=? w) &
 (* the column reported for a node that starts at character k of the line *)
 Definition reported_col (ws : line) (k : nat) : nat := byte_offset ws k.
 Definition col_in_line (ws : line) (k : nat) : bool := reported_col ws k <=? length ws.
+
+(* ------------------------------------------------------------------ *)
+(* The repaired show_error converts the byte offset to a character offset:
+     col = len(line_bytes[:col].decode("utf-8", "ignore"))
+   `chars_before ws b` = the number of COMPLETE characters within the first b bytes (a
+   character cut in the middle is dropped by errors="ignore"). *)
+Fixpoint chars_before (ws : line) (b : nat) : nat :=
+  match ws with
+  | [] => 0
+  | w :: t => if w <=? b then S (chars_before t (b - w)) else 0
+  end.
+
+(* `converted` is regenerated from node_visitor.py (Gen.Total.column_converted): does
+   show_error apply that conversion? *)
+Definition reported_col_gen (converted : bool) (ws : line) (k : nat) : nat :=
+  if converted then chars_before ws (byte_offset ws k) else byte_offset ws k.
